@@ -22,6 +22,20 @@ Definition sites_of_kind (k : rhs -> bool) (sites : list (string * rhs)) : list 
 Definition is_single (r : rhs) : bool := match r with Single360 => true | _ => false end.
 Definition is_other (r : rhs) : bool := match r with Other => true | _ => false end.
 
+(** How an expression that creates an Angle/FrozenAngle object gets its three slots written (census
+    [angle_creations] in Gen/AngleSites_gen.v).  [alloc] below starts new slots at 0.0: that abstraction is
+    justified when no creation is [CreateOther] and the initialisers store all three slots on every path
+    (obligations no_unclassified_angle_creation, to_angle_stores_all_slots, angle_init_stores_all_slots). *)
+Inductive creation :=
+  | ViaCtor        (* Angle(...) / FrozenAngle(...) / cls(...) / type(self)(...): the constructor's store sites *)
+  | RawToAngle     (* X.__new__(X) handed directly to MatrixBase._to_angle *)
+  | RawStored      (* X.__new__(X) bound to a local whose three slots are stored on every path to its return *)
+  | CreateOther.
+Definition creation_ok (c : creation) : bool := match c with CreateOther => false | _ => true end.
+Definition all_creations_ok (l : list (string * creation)) : bool := forallb (fun s => creation_ok (snd s)) l.
+Definition bad_creations (l : list (string * creation)) : list string :=
+  map fst (filter (fun s => negb (creation_ok (snd s))) l).
+
 (** value stored by a site: [v] is the (finite) float the expression e evaluated to,
     [src] the slot read by a CopyFromAngle site *)
 Definition eval_rhs (r : rhs) (v src : b64) : b64 :=
